@@ -32,14 +32,22 @@ fn mulg<G: AffineRepr>(p: &G, s: &Fr<G>) -> G::Group {
     p.mul_bigint(s.into_bigint())
 }
 
-fn case<G: CurveTag>(bytes: &[u8], col: &mut Collector, max_gates: usize) -> Result<(), Failure> {
+fn case<G: CurveTag>(bytes: &[u8], col: &mut Collector, max_gates: usize, large: bool) -> Result<(), Failure> {
     let mut ch = Choices::new(bytes);
-    let cfg = GenCfg { max_ops1: 8, max_closures: 2, max_ops2: 5, max_commits: 3, big_gates: 0 , max_terms: 4, wide: false};
+    let cfg = if large {
+        GenCfg { max_ops1: 10, max_closures: 2, max_ops2: 6, max_commits: 3, big_gates: 150, max_terms: 4, wide: false }
+    } else {
+        GenCfg { max_ops1: 8, max_closures: 2, max_ops2: 5, max_commits: 3, big_gates: 0, max_terms: 4, wide: false }
+    };
     let mut prog = gen_program(&mut ch, G::CURVE, &cfg);
     prog.cap_p = Cap::Big;
     let shape = prog.shape();
-    if shape.n() > max_gates {
+    if !large && shape.n() > max_gates {
         col.class("skipped:too-many-gates-for-probing");
+        return Ok(());
+    }
+    if large && shape.n() <= 64 {
+        col.class("skipped:not-large");
         return Ok(());
     }
     let (n, n1, n2) = (shape.n(), shape.n1, shape.n2);
@@ -164,7 +172,10 @@ fn case<G: CurveTag>(bytes: &[u8], col: &mut Collector, max_gates: usize) -> Res
     let groups: [&[usize]; 3] = [&[0, 1, 2], &[3, 4, 5], &[6, 7, 8, 9, 10]];
     let mut role_of_draw: BTreeMap<usize, Role> = BTreeMap::new();
     let mut unused = 0;
-    for j in 0..draws.len() {
+    // large circuits: a sample of the draws is probed (every probed draw must still hit at most
+    // one generator of one commitment); small ones: every draw
+    let probe_set: Vec<usize> = if large { (0..14).map(|_| ch.below(draws.len())).collect() } else { (0..draws.len()).collect() };
+    for j in probe_set {
         let mut d2 = draws.clone();
         d2[j] += Fr::<G>::one();
         let Some(script) = encode_draws(&d2) else { continue };
@@ -207,6 +218,11 @@ fn case<G: CurveTag>(bytes: &[u8], col: &mut Collector, max_gates: usize) -> Res
                 }
             }
         }
+    }
+    if large {
+        col.class("large:sampled-probes");
+        col.evals_add(17);
+        return finish(col, &prog, &shape, true);
     }
     // the required roles must be covered bijectively by distinct draws
     let mut required: Vec<Role> = vec![(0, Gen::Blinding), (1, Gen::Blinding), (2, Gen::Blinding)];
@@ -370,8 +386,10 @@ fn dispatch(sub: &str, bytes: &[u8], col: &mut Collector) -> Result<(), Failure>
     let mut it = sub.split('/');
     let _ = it.next();
     let curve = Curve::from_name(it.next().unwrap_or("")).unwrap_or(Curve::Secq);
-    let mg: usize = it.next().and_then(|s| s.parse().ok()).unwrap_or(6);
-    with_curve!(curve, G => case::<G>(bytes, col, mg))
+    let third = it.next().unwrap_or("6");
+    let large = third == "large";
+    let mg: usize = third.parse().unwrap_or(6);
+    with_curve!(curve, G => case::<G>(bytes, col, mg, large))
 }
 
 pub fn replay(sub: &str, bytes: &[u8], col: &mut Collector) -> Result<(), Failure> {
@@ -394,6 +412,10 @@ pub fn run(tier: &str, seed: u64) -> i32 {
         let sub = format!("c09/{}/{}", c.name(), mg);
         rep.outcome.merge(replay_corpus("C09", &sub, &|b, col| dispatch(&sub, b, col)));
         rep.outcome.merge(search(&sub, seed, n, 500, &|b, col| dispatch(&sub, b, col)));
+        // more than 64 gates in a phase: seed laws, draw freshness and a sample of the probes
+        let subl = format!("c09/{}/large", c.name());
+        let nl = super::scale(tier, 16, 120);
+        rep.outcome.merge(search(&subl, seed, nl, 900, &|b, col| dispatch(&subl, b, col)));
     }
     for (c, f) in [("probed", 0.5), ("second-phase-gates", 0.1), ("zero-gates", 0.03), ("with-commitments", 0.3), ("full-algebraic-opening(padded=1)", 0.05), ("blinding-scalars-recomputed", 0.5)] {
         rep.required_classes.push((c.to_string(), f));
